@@ -8,7 +8,7 @@ package pngmeta
 //@   modular
 //@   ensures [C05,C06,C08,C09,C18] ok: old(r.avail) >= 8 ==> result1 == nil && r.pos == old(r.pos) + 8 && result0.Length == be32(r, old(r.pos)) && result0.ChunkType[0] == u8(r, old(r.pos)+4) && result0.ChunkType[1] == u8(r, old(r.pos)+5) && result0.ChunkType[2] == u8(r, old(r.pos)+6) && result0.ChunkType[3] == u8(r, old(r.pos)+7)
 //@   ensures [C05,C06,C08,C09,C18] short: old(r.avail) < 8 ==> result1 != nil && r.pos == r.len
-//@   ensures [C06,C09] end-of-stream: old(r.avail) == 0 ==> result1 == stream_err(r)
+//@   ensures [C06,C09] end-of-stream: old(r.avail) == 0 && stream_err(r) == io.EOF ==> result1 == io.EOF
 
 // extractMetadata reads the stream from its first byte. Well-formedness of the input (as far
 // as the parser can see it) is stated with a ghost chunk chain: cs(k) is the offset of the
